@@ -343,7 +343,9 @@ class PDDLWriter:
         # those 2 maps are "simmetrical", meaning that "(otn[k] == v) implies (nto[v] == k)"
 
         # construct keywords set
-        self.pddl_keywords = GENERAL_PDDL_KEYWORDS
+        # a copy: the requirement-specific keywords added below must not leak into
+        # the module-level set (and into every later writer)
+        self.pddl_keywords = set(GENERAL_PDDL_KEYWORDS)
         if len(self.problem.processes) > 0 or len(self.problem.events) > 0:
             self.pddl_keywords |= PDDL_PLUS_KEYWORDS
         if len(self.problem.trajectory_constraints) > 0:
@@ -1060,7 +1062,8 @@ class PDDLWriter:
             out.write(f"\n  :precondition ()")
 
     def _write_untimed_effects(self, item, converter, out, costs):
-        if len(item.effects) > 0:
+        cost = costs.get(item, None)
+        if len(item.effects) > 0 or cost is not None:
             out.write("\n  :effect (and")
             for e in item.effects:
                 _write_effect(
@@ -1072,8 +1075,8 @@ class PDDLWriter:
                     self._get_mangled_name,
                 )
 
-            if item in costs:
-                out.write(f" (increase (total-cost) {converter.convert(costs[item])})")
+            if cost is not None:
+                out.write(f" (increase (total-cost) {converter.convert(cost)})")
             out.write(")")
 
 
@@ -1183,7 +1186,7 @@ def _write_effect(
                 else:
                     out.write(f" (at end")
             if negative_cond.is_true():
-                out.write(f" {converter.convert(effect.fluent)}")
+                out.write(f" (not {converter.convert(effect.fluent)})")
             if timing is not None:
                 out.write(")")
             if effect.is_forall():
